@@ -275,6 +275,18 @@ theorem c02_ptr_history_ordered_of (cmpF : Int → Int → Int) (hLaw : Ekit.RB.
   c02_ptr_reachable_ordered_of cmpF hLaw hFix fuel ops newTree st
     ⟨.leaf, ⟨by simp [Repr, newTree], by simp [PT.addrs], by simp [PT.addrs]⟩, by simp [Ordered, keysOf, PT.addrs]⟩ h
 
+/-- C02: every operation that returns keeps the in-order keys strictly ascending (lawful comparator) -/
+theorem c02_ptr_step_ordered (cmpF : Int → Int → Int) (hLaw : Ekit.RB.LawfulCmp cmpF) (fuel : Nat) (st : St) (op : POp)
+    (r : Val) (st' : St) (hW : OrdWF cmpF st) (h : op.run cmpF fuel st = .ok (r, st')) : OrdWF cmpF st' :=
+  c02_ptr_step_ordered_of cmpF hLaw (fixSpec_holds cmpF) fuel st op r st' hW h
+
+/-- C02: after any history from `NewRBTree`, the keys met by an in-order walk along the child pointers are strictly
+    ascending under the comparator, for every lawful comparator — no hypothesis left -/
+theorem c02_ptr_history_ordered (cmpF : Int → Int → Int) (hLaw : Ekit.RB.LawfulCmp cmpF) (fuel : Nat)
+    (ops : List POp) (st : St) (h : runOps cmpF fuel newTree ops = some st) :
+    ∃ t, Holds st t ∧ (t.addrs.map fun a => (st.h a).key).Pairwise fun x y => cmpF x y < 0 :=
+  c02_ptr_history_ordered_of cmpF hLaw (fixSpec_holds cmpF) fuel ops st h
+
 /-! non-vacuity: that histories run to completion (so that `runOps … = some st` is satisfiable) is what the trace acceptor
     `Driver/Rbptr.lean` establishes on every check: it runs `call cmpF procs` on ~25 000 operations per run and every one
     returns `.ok`; a kernel `decide` of the interpreter on a closure-represented heap is too expensive to keep here. -/
